@@ -88,10 +88,12 @@ fn main() {
         for it in &items {
             if !it.origin.starts_with("tests/") && !it.origin.starts_with("docs") { continue; }
             if let Some(o) = only { if !it.src.contains(o.as_str()) { continue; } }
-            let compiled = match std::panic::catch_unwind(|| vh::qv::run_source(&it.src, &b)) { Ok(Ok((_, _, run))) => run.outcome, _ => { other += 1; continue; } };
+            let t0 = std::time::Instant::now();
+            let compiled = match std::panic::catch_unwind(|| vh::procsys::run_source_capped(&it.src, &b, 2000)) { Ok(Ok(o)) => o, _ => { other += 1; continue; } };
             let src = it.src.clone(); let mods2 = mods.clone();
             let h = std::thread::Builder::new().stack_size(512 << 20).spawn(move || vh::refsem::evaluate(&src, &mods2).0).unwrap();
             let Ok(reference) = h.join() else { other += 1; continue };
+            if t0.elapsed().as_secs() >= 2 { println!("SLOW {}s [{}] {}", t0.elapsed().as_secs(), it.origin, it.src.trim().chars().take(80).collect::<String>()); }
             match (&compiled, &reference) {
                 (_, vh::refsem::Outcome::Unsupported(r)) => { unsup += 1; *reasons.entry(r.clone()).or_insert(0) += 1; }
                 (_, vh::refsem::Outcome::Budget) => { other += 1; }
@@ -105,6 +107,7 @@ fn main() {
         for (r, n) in rs.iter().take(25) { println!("  unsupported {:4} {}", n, r); }
         return;
     }
+    if args.len() >= 3 && args[1] == "ast" { println!("{:#?}", vh::c17::parse_ast(&args[2])); return; }
     if args.len() >= 2 && args[1] == "corpus" {
         let items = vh::corpus::load("/repo");
         let parse_ok = items.iter().filter(|i| quiver_compiler_parse(&i.src)).count();
